@@ -320,7 +320,7 @@ theorem capContent_agree (typ len start : Nat) (d : Bytes) (hp : start + 2 ≤ d
   case h_15 => exact cc_addpath start d hp
   case h_18 => exact cc_fqdn start d hp
   case h_19 => exact cc_lenpfx start d hp
-  case h_20 => exact cc_lenpfx start d hp
+  case h_20 => cc_simple
   case h_21 => cc_simple
   case h_22 => simp
 
